@@ -292,6 +292,10 @@ def known_findings():
         d['unit'] = mu.group(1) if mu else None
         ml = re.search(r'label=(\S+)', m.group(3))
         d['label'] = ml.group(1) if ml else None
+        mi = re.search(r'impl=([\d,]+)', m.group(3))
+        d['impl_prefix'] = [int(x) for x in mi.group(1).split(',')] if mi else None
+        ms = re.search(r'spec=([\d,]+)', m.group(3))
+        d['spec_prefix'] = [int(x) for x in ms.group(1).split(',')] if ms else None
         mw = re.search(r'witness=(\S+)', m.group(3))
         d['witness'] = mw.group(1) if mw else None
         d['text'] = m.group(3).split('::', 1)[1].strip() if '::' in m.group(3) else m.group(3)
